@@ -7,6 +7,7 @@ mod c04;
 mod c05;
 mod c06;
 mod c07;
+mod c08;
 mod c09;
 mod c10;
 mod c11;
@@ -65,6 +66,7 @@ fn main() {
         "C05" => c05::check(tier),
         "C06" => c06::check(tier),
         "C07" => c07::check(tier),
+        "C08" => c08::check(tier),
         "C09" => c09::check(tier),
         "C10" => c10::check(tier),
         "C11" => c11::check(tier),
